@@ -5,7 +5,10 @@
 //! freshly built `ControlState`) plus a small X2 search over the pairing sub-protocol, plus a
 //! credential-string family (every configured secret x {exact, "", proper prefixes/suffixes,
 //! extensions, one-byte changes, case changes}, non-string `auth` members, a rotated-out admin
-//! token — Part C2), plus a malformed-line family on one long-lived connection.
+//! token — Part C2), plus a role-gate-vs-handler family (every role-deciding string of a request
+//! type whose required role depends on its content — today the admin-only keys of `config.set` —
+//! re-spelled in ~45 ways x viewer/operator/engineer/admin credential, judged on which setting
+//! actually changed — Part C3), plus a malformed-line family on one long-lived connection.
 //!
 //! X2 clock: the pairing store runs on an injected clock (`PairingStore::with_clock`); every
 //! event advances it by `dt` seconds. `dt` = 0 keeps two claims in the same second (they then
@@ -338,8 +341,20 @@ pub enum RoleSpec {
     Dyn(u8),
 }
 
+/// A permission-table arm whose role is computed from the request's CONTENT by a helper function.
+#[derive(Clone, Debug, Default)]
+pub struct DynInfo {
+    /// string literals compared in the helper (= the role-deciding strings)
+    pub strings: Vec<String>,
+    /// lowest / highest role literal in the helper
+    pub lo: u8,
+    pub hi: u8,
+}
+
 #[derive(Clone, Debug, Default)]
 pub struct Table {
+    /// request name -> content-dependent role helper
+    pub dynamic: BTreeMap<String, DynInfo>,
     /// request name -> handler file stem that dispatches it
     pub dispatch: BTreeMap<String, String>,
     /// explicit arms of the permission table
@@ -422,14 +437,29 @@ pub fn scan_sources(repo: &Path) -> Result<Table, String> {
                 }
             }
             let mut all = lits.clone();
+            let mut strings: Vec<String> = Vec::new();
             if let Some(c) = callee {
                 if let Some(cb) = fn_body(&ctoks, &c) {
                     all.extend(roles_in(cb));
+                    for tk in cb {
+                        if let Tok::Str(s) = tk {
+                            if !strings.contains(s) {
+                                strings.push(s.clone());
+                            }
+                        }
+                    }
                 }
             }
-            match all.iter().min() {
-                Some(m) => RoleSpec::Dyn(*m),
-                None => return Err(format!("cannot derive a role for table arm {pats:?}")),
+            match (all.iter().min(), all.iter().max()) {
+                (Some(m), Some(mx)) => {
+                    for p in &pats {
+                        if p != "_" {
+                            t.dynamic.insert(p.clone(), DynInfo { strings: strings.clone(), lo: *m, hi: *mx });
+                        }
+                    }
+                    RoleSpec::Dyn(*m)
+                }
+                _ => return Err(format!("cannot derive a role for table arm {pats:?}")),
             }
         };
         for p in pats {
@@ -815,6 +845,46 @@ fn fnv(bytes: &[u8]) -> u64 {
     h
 }
 
+/// Splits a pretty `{:#?}` rendering into one entry per leaf line, keyed by the path of field
+/// names (unnamed elements are numbered). Only used to tell WHICH part of a structure changed.
+fn debug_leaves(prefix: &str, pretty: &str, out: &mut BTreeMap<String, String>) {
+    let mut stack: Vec<(String, usize)> = Vec::new();
+    let mut root_counter = 0usize;
+    for line in pretty.lines() {
+        let t = line.trim();
+        if t.is_empty() {
+            continue;
+        }
+        let closes = t.trim_end_matches(',');
+        if closes == "}" || closes == ")" || closes == "]" {
+            stack.pop();
+            continue;
+        }
+        let (name, rest) = match t.split_once(": ") {
+            Some((n, r)) if !n.is_empty() && n.chars().all(|c| c.is_alphanumeric() || c == '_') => (Some(n.to_string()), r),
+            _ => (None, t),
+        };
+        let name = match name {
+            Some(n) => n,
+            None => {
+                let c = match stack.last_mut() {
+                    Some(s) => &mut s.1,
+                    None => &mut root_counter,
+                };
+                *c += 1;
+                format!("#{}", *c)
+            }
+        };
+        if rest.ends_with('{') || rest.ends_with('(') || rest.ends_with('[') {
+            stack.push((name, 0));
+        } else {
+            let mut path: Vec<&str> = stack.iter().map(|s| s.0.as_str()).collect();
+            path.push(name.as_str());
+            out.insert(format!("{prefix}.{}", path.join(".")), rest.trim_end_matches(',').to_string());
+        }
+    }
+}
+
 fn walk_files(dir: &Path, rel: &str, out: &mut BTreeMap<String, String>) {
     let Ok(rd) = std::fs::read_dir(dir) else { return };
     for e in rd.flatten() {
@@ -848,6 +918,8 @@ impl Env {
         m.insert("debug.bp_generation".into(), format!("{:?}", self.debug.breakpoint_generation(FILE_ID)));
         m.insert("debug.io_writes".into(), format!("{:?}", self.debug.drain_io_writes()));
         m.insert("settings".into(), format!("{:?}", *st.settings.lock().unwrap()));
+        // the same, one entry per leaf (so that "WHICH setting changed" is observable)
+        debug_leaves("settings", &format!("{:#?}", *st.settings.lock().unwrap()), &mut m);
         m.insert("control_mode".into(), format!("{:?}", *st.control_mode.lock().unwrap()));
         m.insert("debug_enabled".into(), st.debug_enabled.load(Ordering::Relaxed).to_string());
         m.insert("auth_token".into(), format!("{:?}", *st.auth_token.lock().unwrap()));
@@ -1150,6 +1222,32 @@ fn garbled(name: &str) -> Vec<String> {
     v
 }
 
+/// More re-spellings of a known request name (the permission table and the dispatcher match the
+/// `type` string independently): invisible characters, Unicode blanks, case-fold look-alikes.
+/// Sent in fewer configurations than `garbled` (the name handling does not depend on them).
+fn garbled_extended(name: &str) -> Vec<String> {
+    let mut v = vec![
+        format!("\u{feff}{name}"),
+        format!("{name}\u{200b}"),
+        format!("{name}\u{a0}"),
+        format!("\u{3000}{name}"),
+        name.replacen('.', "\u{ff0e}", 1),
+    ];
+    for (from, to) in [('k', "\u{212a}"), ('i', "\u{131}"), ('i', "\u{130}"), ('s', "\u{17f}")] {
+        if let Some(x) = replace_first(name, from, to) {
+            v.push(x);
+        }
+    }
+    if let Some(f) = name.chars().next().filter(|c| c.is_ascii_lowercase()) {
+        let fw = char::from_u32(0xff41 + (f as u32 - 'a' as u32)).unwrap_or(f);
+        v.push(format!("{fw}{}", &name[1..]));
+    }
+    v.sort();
+    v.dedup();
+    v.retain(|g| g != name);
+    v
+}
+
 const CRED_ORDER: [&str; 9] = ["none", "wrong", "admin", "pair:viewer", "pair:operator", "pair:engineer", "pair:admin", "revoked", "expired"];
 
 /// Role a credential maps to: Some(Some(r)) = role r; Some(None) = no valid credential (must be
@@ -1207,6 +1305,7 @@ fn type_label(ty: &str) -> String {
             '\t' => "\\t".to_string(),
             '\0' => "\\0".to_string(),
             c if c.is_control() => format!("\\x{:02x}", c as u32),
+            c if !c.is_ascii() => format!("\\u{{{:04x}}}", c as u32), // invisible / look-alike characters stay readable
             c => c.to_string(),
         })
         .collect()
@@ -1629,6 +1728,252 @@ fn run_cred(case: &Value) -> Result<Value, String> {
         "violations": viol.iter().map(|(s, w)| json!([s, w])).collect::<Vec<_>>(),
         "expected_role": expected, "class": format!("{sclass}/{mclass}"),
         "accepted": accepted_n, "refused": refused_n, "status_ok": status_ok,
+    }))
+}
+
+// =================================================================================================
+// Part C3 — role gate vs handler: re-spelled role-deciding strings (content-dependent roles)
+// =================================================================================================
+//
+// For a request type whose required role depends on the request's CONTENT, the role gate and the
+// handler read the same params independently; every input the two read differently is a
+// privilege hole. The content-dependent arms of the permission table and the strings their helper
+// compares (the role-deciding strings) are taken from the CURRENT source by the scanner
+// (`Table::dynamic`; today: `config.set`, whose helper compares the params KEYS with the
+// admin-only keys). Every role-deciding key is sent canonically and in re-spelled forms (other
+// letter case, blanks/tabs/newlines incl. Unicode blanks, NUL / BOM / zero-width characters,
+// Unicode case-fold look-alikes (Kelvin sign, dotless i, long s, full-width forms), other
+// separators, nested objects instead of dotted keys, wrapper members, array-shaped params,
+// duplicate members) by a viewer, operator, engineer and admin credential, each on a fresh
+// endpoint with full state probes.
+//
+// Oracle — judged on the EFFECT, never on the spelling: calibration (the admin token sends the
+// canonical key) measures which probe fields the admin-only setting K changes; if a request
+// changes one of those fields, the credential must have the role the permission table demands
+// for K, however the key was spelled. An error reply, or an ok reply that does not touch such a
+// field, is fine. Any effect at all needs at least the lowest role of the helper.
+// Not enumerated (role does not depend on them in the current table): io.write/io.force
+// addresses, set/var.force targets, pair.revoke ids, bytecode.reload parameters; the hmi.write
+// allow list is not a role decision.
+
+/// Values that change the fresh endpoint, per admin-only key (first one that shows an effect in
+/// the calibration is used; unknown keys get the generic candidates).
+fn gate_values(key: &str) -> Vec<Value> {
+    match key {
+        "control.mode" => vec![json!("production")],
+        "web.auth" => vec![json!("token")],
+        "mesh.auth_token" => vec![json!("mesh-secret-chosen-by-sender")],
+        "control.auth_token" => vec![json!("new-admin-token")],
+        _ => vec![json!("x"), json!(true), json!(5), json!(["x"])],
+    }
+}
+
+fn jstr(s: &str) -> String {
+    serde_json::to_string(s).unwrap_or_else(|_| "\"\"".into())
+}
+
+fn replace_first(s: &str, from: char, to: &str) -> Option<String> {
+    let i = s.find(from)?;
+    let mut o = String::with_capacity(s.len() + to.len());
+    o.push_str(&s[..i]);
+    o.push_str(to);
+    o.push_str(&s[i + from.len_utf8()..]);
+    Some(o)
+}
+
+/// Re-spelled keys: (spelling name, class, key).
+fn respelled_keys(key: &str, thorough: bool) -> Vec<(String, &'static str, String)> {
+    let mut v: Vec<(String, &'static str, String)> = Vec::new();
+    let mut add = |n: &str, c: &'static str, k: String| v.push((n.to_string(), c, k));
+    let cap: String = key
+        .split('.')
+        .map(|seg| {
+            let mut c = seg.chars();
+            match c.next() {
+                Some(f) => f.to_ascii_uppercase().to_string() + c.as_str(),
+                None => String::new(),
+            }
+        })
+        .collect::<Vec<_>>()
+        .join(".");
+    let mut last_up: Vec<char> = key.chars().collect();
+    if let Some(l) = last_up.last_mut() {
+        *l = l.to_ascii_uppercase();
+    }
+    add("case:upper", "case", key.to_ascii_uppercase());
+    add("case:capitalised", "case", cap.clone());
+    add("case:last-letter", "case", last_up.into_iter().collect());
+    add("blank:space+", "blank", format!(" {key}"));
+    add("blank:+space", "blank", format!("{key} "));
+    add("blank:tab+", "blank", format!("\t{key}"));
+    add("blank:+tab", "blank", format!("{key}\t"));
+    add("blank:+newline", "blank", format!("{key}\n"));
+    add("blank:+crlf", "blank", format!("{key}\r\n"));
+    add("blank:+nbsp", "blank", format!("{key}\u{a0}"));
+    add("blank:ideographic-space+", "blank", format!("\u{3000}{key}"));
+    add("invisible:+nul", "invisible", format!("{key}\u{0}"));
+    add("invisible:nul+", "invisible", format!("\u{0}{key}"));
+    add("invisible:bom+", "invisible", format!("\u{feff}{key}"));
+    add("invisible:+zero-width-space", "invisible", format!("{key}\u{200b}"));
+    add("invisible:zero-width-joiner-inside", "invisible", key.replacen('.', "\u{200d}.", 1));
+    add("invisible:soft-hyphen-inside", "invisible", {
+        let mut c: Vec<char> = key.chars().collect();
+        c.insert(1.min(c.len()), '\u{ad}');
+        c.into_iter().collect()
+    });
+    // Unicode characters that simple/full case mapping or compatibility folding turns into ASCII
+    if let Some(k) = replace_first(key, 'k', "\u{212a}") {
+        add("fold:kelvin-sign", "unicode-fold", k);
+    }
+    if let Some(k) = replace_first(key, 'i', "\u{131}") {
+        add("fold:dotless-i", "unicode-fold", k);
+    }
+    if let Some(k) = replace_first(key, 'i', "\u{130}") {
+        add("fold:capital-i-with-dot", "unicode-fold", k);
+    }
+    if let Some(k) = replace_first(key, 's', "\u{17f}") {
+        add("fold:long-s", "unicode-fold", k);
+    }
+    if let Some(f) = key.chars().next().filter(|c| c.is_ascii_lowercase()) {
+        let fw = char::from_u32(0xff41 + (f as u32 - 'a' as u32)).unwrap_or(f);
+        add("fold:fullwidth-first-letter", "unicode-fold", format!("{fw}{}", &key[1..]));
+    }
+    add("fold:fullwidth-dot", "unicode-fold", key.replacen('.', "\u{ff0e}", 1));
+    for (n, sep) in [("underscore", "_"), ("slash", "/"), ("colon", ":"), ("double-dot", ".."), ("dash", "-"), ("space", " ")] {
+        add(&format!("separator:{n}"), "separator", key.replacen('.', sep, 1));
+    }
+    add("separator:leading-dot", "separator", format!(".{key}"));
+    add("separator:trailing-dot", "separator", format!("{key}."));
+    if thorough {
+        add("mixed:space+upper", "mixed", format!(" {}", key.to_ascii_uppercase()));
+        add("mixed:capitalised+space", "mixed", format!("{cap} "));
+        add("mixed:tab+upper+bom", "mixed", format!("\t{}\u{feff}", key.to_ascii_uppercase()));
+        add("case:first-letter", "case", {
+            let mut c = key.chars();
+            match c.next() {
+                Some(f) => f.to_ascii_uppercase().to_string() + c.as_str(),
+                None => String::new(),
+            }
+        });
+        add("blank:spaces-both", "blank", format!("  {key}  "));
+        add("blank:em-space+", "blank", format!("\u{2003}{key}"));
+        add("blank:+vertical-tab", "blank", format!("{key}\u{b}"));
+        add("blank:+form-feed", "blank", format!("{key}\u{c}"));
+    }
+    v.retain(|(_, _, k)| k != key);
+    v
+}
+
+/// Request forms for one role-deciding key: (spelling name, class, raw JSON text of the members
+/// after `id`, `type`, `auth` — raw text because of the duplicate-member forms).
+fn gate_forms(key: &str, value: &Value, thorough: bool) -> Vec<(String, &'static str, String)> {
+    let obj1 = |k: &str, v: &Value| format!("{{{}:{}}}", jstr(k), v);
+    let pm = |raw: String| format!("\"params\":{raw}");
+    let mut out: Vec<(String, &'static str, String)> = Vec::new();
+    out.push(("canonical".into(), "canonical", pm(obj1(key, value))));
+    out.push(("canonical+benign-key".into(), "canonical", pm(format!("{{\"log.level\":\"debug\",{}:{}}}", jstr(key), value))));
+    let respelled = respelled_keys(key, thorough);
+    for (n, c, k) in &respelled {
+        out.push((n.clone(), c, pm(obj1(k, value))));
+    }
+    // nested object instead of the dotted key
+    if let Some((head, tail)) = key.split_once('.') {
+        out.push(("nested:object".into(), "nested", pm(format!("{{{}:{}}}", jstr(head), obj1(tail, value)))));
+        out.push(("nested:object+benign-key".into(), "nested", pm(format!("{{\"log.level\":\"debug\",{}:{}}}", jstr(head), obj1(tail, value)))));
+    }
+    // the object wrapped into a member / sent as key-value pair
+    for w in ["params", "settings", "config", "set", "values"] {
+        out.push((format!("wrapper:{w}"), "wrapper", pm(format!("{{{}:{}}}", jstr(w), obj1(key, value)))));
+    }
+    out.push(("wrapper:key-value".into(), "wrapper", pm(format!("{{\"key\":{},\"value\":{}}}", jstr(key), value))));
+    out.push(("wrapper:name-value".into(), "wrapper", pm(format!("{{\"name\":{},\"value\":{}}}", jstr(key), value))));
+    // arrays where an object / a string is expected
+    out.push(("array:of-objects".into(), "array-params", pm(format!("[{}]", obj1(key, value)))));
+    out.push(("array:of-pairs".into(), "array-params", pm(format!("[[{},{}]]", jstr(key), value))));
+    out.push(("array:flat-pair".into(), "array-params", pm(format!("[{},{}]", jstr(key), value))));
+    out.push(("array:string-params".into(), "array-params", pm(jstr(&obj1(key, value)))));
+    // duplicate members (one JSON text, two readings: first wins / last wins)
+    let benign = "{\"log.level\":\"debug\"}".to_string();
+    out.push(("duplicate:params-benign-then-key".into(), "duplicate", format!("{},{}", pm(benign.clone()), pm(obj1(key, value)))));
+    out.push(("duplicate:params-key-then-benign".into(), "duplicate", format!("{},{}", pm(obj1(key, value)), pm(benign))));
+    out.push(("duplicate:key-twice".into(), "duplicate", pm(format!("{{{}:{},{}:{}}}", jstr(key), value, jstr(key), value))));
+    if let (Some(a), Some(b)) = (respelled.iter().find(|r| r.0 == "case:capitalised"), respelled.iter().find(|r| r.0 == "blank:+space")) {
+        if thorough {
+            // two different re-spellings of the same key in one object (a combination, hence class `mixed`)
+            out.push(("mixed:two-spellings".into(), "mixed", pm(format!("{{{}:{},{}:{}}}", jstr(&a.2), value, jstr(&b.2), value))));
+        }
+        out.push(("case:capitalised+benign-key".into(), "case", pm(format!("{{\"log.level\":\"debug\",{}:{}}}", jstr(&a.2), value))));
+    }
+    out
+}
+
+const GATE_CREDS: [&str; 4] = ["pair:viewer", "pair:operator", "pair:engineer", "admin"];
+
+/// One raw request by one credential on a fresh endpoint; judged against the calibrated fields.
+fn run_gate(case: &Value) -> Result<Value, String> {
+    let cfg = Cfg::from_json(&case["cfg"]);
+    let base = scratch_base(case);
+    let mut env = build_env(cfg, &base, false)?;
+    let ty = case["type"].as_str().ok_or("gate case without type")?;
+    let cred = case["cred"].as_str().unwrap_or("admin");
+    let members = case["members_raw"].as_str().ok_or("gate case without members_raw")?;
+    let Some(token) = env.creds.get(cred).cloned() else {
+        return Ok(json!({"skipped": "credential not constructible"}));
+    };
+    let role: u8 = match cred {
+        "admin" => 3,
+        c => c.strip_prefix("pair:").and_then(role_index).ok_or("gate case: credential without a role")?,
+    };
+    let before = env.probe(false);
+    let line = format!("{{\"id\":7,\"type\":{},\"auth\":{},{members}}}", jstr(ty), jstr(&token));
+    let _ = take_panic();
+    let reply = send_once(&env.sock, line.as_bytes());
+    let panic = take_panic();
+    let after = env.probe(true);
+    let effects = diff_keys(&before, &after);
+    let class = case["class"].as_str().unwrap_or("?");
+    let spelling = case["spelling"].as_str().unwrap_or("?");
+    let lo = case["lo"].as_u64().unwrap_or(0) as u8;
+    let shown = format!("`{ty}` {} (spelling `{spelling}` of `{}`) sent with the credential `{cred}` (role {})", clip(members, 160), case["key"].as_str().unwrap_or("?"), role_name(role));
+    let mut viol: Vec<(String, String)> = Vec::new();
+    if reply.ok.is_none() {
+        let why = panic.clone().or(reply.io_error.clone()).unwrap_or_else(|| "reply is not a JSON object with a boolean `ok`".into());
+        viol.push((format!("C18/role-gate/no-reply/{ty}/{class}"), format!("{shown} got no well-formed reply ({why})")));
+    }
+    if let Some(p) = &panic {
+        viol.push((format!("C18/role-gate/panic/{ty}/{class}"), format!("{shown} made an endpoint thread panic: {}", clip(p, 160))));
+    }
+    // which admin-only settings changed (canonical meaning of the effect)
+    let mut touched: Vec<String> = Vec::new();
+    if let Some(fields) = case["fields"].as_object() {
+        for (k, spec) in fields {
+            let need = spec["role"].as_u64().unwrap_or(3) as u8;
+            let hit: Vec<String> = spec["fields"].as_array().map(|a| a.iter().filter_map(Value::as_str).filter(|f| effects.iter().any(|e| e == f)).map(str::to_string).collect()).unwrap_or_default();
+            if hit.is_empty() {
+                continue;
+            }
+            touched.push(k.clone());
+            if role < need {
+                viol.push((
+                    format!("C18/role-gate-bypass/{ty}:{k}/{class}/{}", role_name(role)),
+                    format!(
+                        "{shown} changed {hit:?}, i.e. the setting `{k}`, for which the permission table requires {}: the role gate and the handler read the request differently; reply {}",
+                        role_name(need),
+                        clip(reply.raw.as_deref().unwrap_or("<none>"), 160)
+                    ),
+                ));
+            }
+        }
+    }
+    if role < lo && !effects.is_empty() {
+        viol.push((
+            format!("C18/role-gate-bypass/{ty}:*/{class}/{}", role_name(role)),
+            format!("{shown} changed {effects:?} although every `{ty}` requires at least {}; reply {}", role_name(lo), clip(reply.raw.as_deref().unwrap_or("<none>"), 160)),
+        ));
+    }
+    Ok(json!({
+        "violations": viol.iter().map(|(s, w)| json!([s, w])).collect::<Vec<_>>(),
+        "effects": effects, "touched": touched, "ok": reply.ok, "error": reply.error, "role": role,
     }))
 }
 
@@ -2297,6 +2642,7 @@ fn exec_case(case: &Value) -> Value {
         }),
         Some("x2") => run_history(case),
         Some("cred") => run_cred(case),
+        Some("gate") => run_gate(case),
         Some("sock") => run_sock(case),
         Some("null") => {
             // calibration: no request at all — the probes must not differ
@@ -2719,6 +3065,193 @@ pub fn run(ctx: &Ctx) -> EngineResult {
         rep.sample(json!({"family":"cred","secret":c["secret"],"mutation":c["mutation"],"cfg":c["cfg"]}));
     }
 
+    // ---- role gate vs handler: re-spelled role-deciding strings ---------------------------------------------
+    let gate_cfg = Cfg { token: true, debug: true, pairing: true, production: false };
+    let mut gate_cases: Vec<Value> = Vec::new();
+    let mut gate_keys: Vec<String> = Vec::new();
+    let mut gate_unobservable: Vec<String> = Vec::new();
+    for (ty, info) in &table.dynamic {
+        if ty != "config.set" {
+            // the forms below put the role-deciding string into a params KEY; another shape needs its own forms
+            return machinery(format!("request type `{ty}` has a content-dependent role (strings {:?}) but the engine has no re-spelling forms for it", info.strings));
+        }
+        let mk_gate = |members: String, cred: &str, extra: Value| -> Value {
+            let mut c = json!({"kind":"gate","dir":fast_s,"cfg":gate_cfg.to_json(),"type":ty,"cred":cred,"members_raw":members,"lo":info.lo});
+            if let Value::Object(o) = extra {
+                for (k, v) in o {
+                    c[k.as_str()] = v;
+                }
+            }
+            c
+        };
+        // calibration: what does the ADMIN change with the canonical key (minus what an empty request changes)
+        let mut cal: Vec<(Option<(String, Value)>, Value)> = vec![(None, mk_gate("\"params\":{}".into(), "admin", json!({})))];
+        for key in &info.strings {
+            for v in gate_values(key) {
+                cal.push((Some((key.clone(), v.clone())), mk_gate(format!("\"params\":{{{}:{}}}", jstr(key), v), "admin", json!({}))));
+            }
+        }
+        let cal_cases: Vec<Value> = cal.iter().map(|c| c.1.clone()).collect();
+        let cal_out = iso::run_pool(&nodl_pool, &cal_cases).map_err(Machinery)?;
+        let mut e0: BTreeSet<String> = BTreeSet::new();
+        e0.insert("settings".into()); // the aggregate rendering; the leaves tell which setting changed
+        let mut chosen: BTreeMap<String, (Value, Vec<String>)> = BTreeMap::new();
+        for ((what, _), o) in cal.iter().zip(cal_out) {
+            let v = match o {
+                Some(iso::Outcome::Ok(v)) => v,
+                other => return machinery(format!("role-gate calibration failed: {other:?}")),
+            };
+            if let Some(m) = v["machinery"].as_str() {
+                return machinery(format!("role-gate calibration case failed to build: {m}"));
+            }
+            let eff: Vec<String> = v["effects"].as_array().map(|a| a.iter().filter_map(|x| x.as_str().map(str::to_string)).collect()).unwrap_or_default();
+            match what {
+                None => {
+                    if v["ok"].as_bool() != Some(true) {
+                        return machinery(format!("role-gate calibration: the admin's empty `{ty}` was refused: {:?}", v["error"]));
+                    }
+                    e0.extend(eff);
+                }
+                Some((key, val)) => {
+                    let d: Vec<String> = eff.into_iter().filter(|f| !e0.contains(f)).collect();
+                    if !d.is_empty() && !chosen.contains_key(key) {
+                        chosen.insert(key.clone(), (val.clone(), d));
+                    }
+                }
+            }
+        }
+        let mut fields = Map::new();
+        for key in &info.strings {
+            match chosen.get(key) {
+                Some((_, d)) => {
+                    fields.insert(key.clone(), json!({"role": info.hi, "fields": d}));
+                }
+                None if key.contains('.') && !key.contains(' ') => {
+                    return machinery(format!("probe blind: the admin's canonical `{ty}` {{{key}: …}} shows no effect of its own for any candidate value (add a value to gate_values)"));
+                }
+                None => gate_unobservable.push(key.clone()),
+            }
+        }
+        let fields = Value::Object(fields);
+        for key in &info.strings {
+            let Some((val, _)) = chosen.get(key) else { continue };
+            gate_keys.push(format!("{ty}:{key}"));
+            for (spelling, class, members) in gate_forms(key, val, thorough) {
+                for cred in GATE_CREDS {
+                    gate_cases.push(mk_gate(members.clone(), cred, json!({"key": key, "spelling": spelling, "class": class, "fields": fields})));
+                }
+            }
+        }
+    }
+    let gouts = iso::run_pool(&nodl_pool, &gate_cases).map_err(Machinery)?;
+    let mut gate_run = 0u64;
+    let mut gate_with_effect = 0u64;
+    let mut gate_forbidden = 0u64;
+    let mut gate_admin_touched = 0u64;
+    let mut gate_respelled_rejected = 0u64;
+    let mut gate_classes: BTreeMap<String, u64> = BTreeMap::new();
+    let mut gate_outcomes: BTreeMap<String, u64> = BTreeMap::new();
+    let mut gate_viol: Vec<Violation> = Vec::new();
+    for (case, o) in gate_cases.iter().zip(gouts) {
+        match o {
+            Some(iso::Outcome::Ok(v)) => {
+                if let Some(m) = v["machinery"].as_str() {
+                    return machinery(format!("role-gate case failed to build: {m} ({})", clip(&case.to_string(), 200)));
+                }
+                if v.get("skipped").is_some() {
+                    continue;
+                }
+                gate_run += 1;
+                let class = case["class"].as_str().unwrap_or("?");
+                *gate_classes.entry(class.to_string()).or_insert(0) += 1;
+                let has_eff = v["effects"].as_array().map(|a| !a.is_empty()).unwrap_or(false);
+                let touched = v["touched"].as_array().map(|a| !a.is_empty()).unwrap_or(false);
+                gate_with_effect += has_eff as u64;
+                let err = v["error"].as_str().unwrap_or("");
+                let outcome = if v["ok"].as_bool() == Some(true) {
+                    "ok"
+                } else if err.starts_with("forbidden") {
+                    "forbidden"
+                } else if err.starts_with("unknown config key") {
+                    "unknown key"
+                } else {
+                    "other error"
+                };
+                *gate_outcomes.entry(format!("{}/{outcome}", role_name(v["role"].as_u64().unwrap_or(0) as u8))).or_insert(0) += 1;
+                if class == "canonical" && case["cred"] == "pair:engineer" && outcome == "forbidden" {
+                    gate_forbidden += 1;
+                }
+                if class == "canonical" && case["cred"] == "admin" && touched {
+                    gate_admin_touched += 1;
+                }
+                if class != "canonical" && case["cred"] == "admin" && !has_eff {
+                    gate_respelled_rejected += 1;
+                }
+                for x in v["violations"].as_array().cloned().unwrap_or_default() {
+                    let mut c = case.clone();
+                    c["dir"] = json!("");
+                    gate_viol.push(Violation { signature: x[0].as_str().unwrap_or("C18/role-gate/?").to_string(), what: x[1].as_str().unwrap_or("").to_string(), case: c });
+                }
+            }
+            Some(iso::Outcome::Died(m)) => rep.violation(Violation { signature: "C18/role-gate/process-died".into(), what: format!("the process hosting the endpoint died on a re-spelled request: {}", clip(&m, 200)), case: case.clone() }),
+            Some(iso::Outcome::Timeout) => rep.violation(Violation { signature: "C18/role-gate/hang".into(), what: "re-spelled request did not finish within 120 s".into(), case: case.clone() }),
+            other => return machinery(format!("role-gate case: {other:?}")),
+        }
+    }
+    // collapse a systemic cause: the same spelling class opens more than two role-deciding keys of a
+    // request type for the same role -> one signature `<type>:*many` (a defect of a single key keeps its key)
+    {
+        let split = |sig: &str| -> Option<(String, String, String)> {
+            // C18/role-gate-bypass/<type>:<key>/<class>/<role>
+            let rest = sig.strip_prefix("C18/role-gate-bypass/")?;
+            let mut it = rest.rsplitn(3, '/');
+            let role = it.next()?;
+            let class = it.next()?;
+            let tk = it.next()?;
+            let (ty, key) = tk.split_once(':')?;
+            Some((format!("{ty}|{class}|{role}"), key.to_string(), ty.to_string()))
+        };
+        let mut by_group: BTreeMap<String, BTreeSet<String>> = BTreeMap::new();
+        for v in &gate_viol {
+            if let Some((g, key, _)) = split(&v.signature) {
+                if key != "*" {
+                    by_group.entry(g).or_default().insert(key);
+                }
+            }
+        }
+        for mut v in gate_viol {
+            if let Some((g, key, ty)) = split(&v.signature) {
+                if let Some(keys) = by_group.get(&g).filter(|k| k.len() > 2 && key != "*") {
+                    let mut parts = g.split('|');
+                    let (_, class, role) = (parts.next(), parts.next().unwrap_or("?"), parts.next().unwrap_or("?"));
+                    v.signature = format!("C18/role-gate-bypass/{ty}:*many/{class}/{role}");
+                    v.what = format!("{} role-deciding keys of `{ty}` are open to this spelling class ({:?}); first case: {}", keys.len(), keys, v.what);
+                }
+            }
+            rep.violation(v);
+        }
+    }
+    if !table.dynamic.is_empty() {
+        if gate_forbidden == 0 || gate_admin_touched == 0 {
+            return machinery(format!("role-gate family vacuous: canonical admin-only keys were refused for the engineer {gate_forbidden} times and applied for the admin {gate_admin_touched} times"));
+        }
+        if gate_run < 100 {
+            return machinery(format!("role-gate family vacuous: only {gate_run} cases"));
+        }
+    }
+    eprintln!("[C18] role gate vs handler done at {:.1}s ({gate_run} cases)", ctx.elapsed());
+    rep.set("gate_content_dependent_types", json!(table.dynamic.iter().map(|(k, v)| (k.clone(), json!({"strings": v.strings, "lowest_role": role_name(v.lo), "highest_role": role_name(v.hi)}))).collect::<Map<String, Value>>()));
+    rep.set("gate_keys_exercised", json!(gate_keys));
+    rep.set("gate_strings_without_observable_effect", json!(gate_unobservable));
+    rep.set("gate_cases", gate_run);
+    rep.set("gate_cases_with_effect", gate_with_effect);
+    rep.set("gate_respelled_without_effect_for_admin", gate_respelled_rejected);
+    rep.set("gate_spelling_classes", json!(gate_classes));
+    rep.set("gate_outcomes_by_role", json!(gate_outcomes));
+    if let Some(c) = gate_cases.iter().find(|c| c["spelling"] == "case:capitalised" && c["cred"] == "pair:engineer") {
+        rep.sample(json!({"family":"gate","type":c["type"],"members_raw":c["members_raw"],"cred":c["cred"],"fields":c["fields"]}));
+    }
+
     // ---- malformed lines on a real long-lived connection ---------------------------------------------
     let sock_s = sock_dir.to_string_lossy().to_string();
     let sc: Vec<Value> = SOCK_FAMILIES.iter().map(|f| json!({"kind":"sock","dir":sock_s,"family":f})).collect();
@@ -2779,6 +3312,21 @@ pub fn run(ctx: &Ctx) -> EngineResult {
             }
         }
     }
+    let mut extended_types: BTreeSet<String> = BTreeSet::new();
+    for b in &garble_bases {
+        for g in garbled_extended(b) {
+            if seen_types.insert(g.clone()) {
+                extended_types.insert(g.clone());
+                types.push((g, b.clone(), false));
+            }
+        }
+    }
+    // configurations for the extended re-spellings: fully configured endpoint (thorough: also no auth token)
+    let extended_cfgs: Vec<Cfg> = if thorough {
+        vec![Cfg { token: true, debug: true, pairing: true, production: false }, Cfg { token: false, debug: true, pairing: true, production: false }]
+    } else {
+        vec![Cfg { token: true, debug: true, pairing: true, production: false }]
+    };
     let mut cases: Vec<Value> = Vec::new();
     for (ty, base_ty, known) in &types {
         let (spec, _explicit) = table.required(ty);
@@ -2792,7 +3340,9 @@ pub fn run(ctx: &Ctx) -> EngineResult {
             menu.retain(|(n, _)| n == "absent" || n == "min" || (thorough && n == "empty"));
         }
         for (pname, params) in &menu {
-            let cfg_list: Vec<Cfg> = if thorough || prod_types_quick.contains(&ty.as_str()) {
+            let cfg_list: Vec<Cfg> = if extended_types.contains(ty) {
+                extended_cfgs.clone()
+            } else if thorough || prod_types_quick.contains(&ty.as_str()) {
                 all_cfgs.clone()
             } else {
                 cfgs_debugmode.clone()
@@ -2955,9 +3505,9 @@ pub fn run(ctx: &Ctx) -> EngineResult {
         rep.sample(json!({"family":"x1","type":c["type"],"params":c["params"],"cfg":c["cfg"]}));
     }
 
-    rep.set("evaluations", requests + x2_requests + sent + cred_requests);
+    rep.set("evaluations", requests + x2_requests + sent + cred_requests + gate_run);
     rep.set("distinct_nontrivial", nontrivial);
-    rep.set("rule", "X1: every request name matched in control/handlers/*.rs, required_role_for_control_request and is_debug_request of the CURRENT source (plus unknown/garbled variants) x per-type params menu {absent, {}, effective params, wrong JSON types, non-object params; thorough: every single-field deletion/type flip/null and every config key x 6 value shapes} x endpoint configuration {auth token set/unset} x {debug on/off} x {pairing store present/absent} x {control mode debug/production (quick: production only for pause/resume/status)} x credential {none, wrong, admin token, pairing token of viewer/operator/engineer/admin, revoked, expired}; each request is ONE line sent over a unix socket to a real ControlServer serving a freshly built ControlState, with state probes before/after. distinct_nontrivial = number of (configuration, type, params) groups in which at least one credential was performed (ok reply or observable effect) AND at least one was refused, i.e. the gate discriminated. X2: BFS by replay over {pair.start, pair.claim(role,code), admin pairs a token (start+claim) in the next or in the SAME second as the previous event, pair.revoke by id (also in the same second) / all, clock ticks: past code expiry, past token expiry, to one second before / one second after the reported expiry of the earliest valid token, one second after the reported expiry of the pending code} with a reference model of valid credentials (tokens that share a listing id are revoked together; at the expiry instant both outcomes are accepted); in every state every credential (admin token, never-issued string, pending code, every issued token, the listing id of the first token) is tried at four role levels, the endpoint's listing is compared with what it served, and a store re-loaded from pairing.json is asked about every token. Credential strings: for every configured secret (admin token; pairing token of viewer/operator/engineer/admin; revoked and expired pairing token; admin token after / before a rotation by config.set) x {exact, empty, first byte, first half, all but last byte, all but first byte, last 4 bytes, +1 byte, +NUL, 1 byte+, doubled, first/middle/last byte changed, upper/lower/swapped case; thorough: every proper prefix length and every single-byte change} and for auth = null/true/0/[]/{}: status, restart, io.write, pair.list, config.set{control.auth_token} on one fresh endpoint with full state probes; only the exact string of a valid secret may be served. Malformed: every byte truncation of three valid request lines, 45 garbage lines, 8 oversized/deeply nested lines on one long-lived connection.");
+    rep.set("rule", "X1: every request name matched in control/handlers/*.rs, required_role_for_control_request and is_debug_request of the CURRENT source (plus unknown/garbled variants) x per-type params menu {absent, {}, effective params, wrong JSON types, non-object params; thorough: every single-field deletion/type flip/null and every config key x 6 value shapes} x endpoint configuration {auth token set/unset} x {debug on/off} x {pairing store present/absent} x {control mode debug/production (quick: production only for pause/resume/status)} x credential {none, wrong, admin token, pairing token of viewer/operator/engineer/admin, revoked, expired}; each request is ONE line sent over a unix socket to a real ControlServer serving a freshly built ControlState, with state probes before/after. distinct_nontrivial = number of (configuration, type, params) groups in which at least one credential was performed (ok reply or observable effect) AND at least one was refused, i.e. the gate discriminated. X2: BFS by replay over {pair.start, pair.claim(role,code), admin pairs a token (start+claim) in the next or in the SAME second as the previous event, pair.revoke by id (also in the same second) / all, clock ticks: past code expiry, past token expiry, to one second before / one second after the reported expiry of the earliest valid token, one second after the reported expiry of the pending code} with a reference model of valid credentials (tokens that share a listing id are revoked together; at the expiry instant both outcomes are accepted); in every state every credential (admin token, never-issued string, pending code, every issued token, the listing id of the first token) is tried at four role levels, the endpoint's listing is compared with what it served, and a store re-loaded from pairing.json is asked about every token. Credential strings: for every configured secret (admin token; pairing token of viewer/operator/engineer/admin; revoked and expired pairing token; admin token after / before a rotation by config.set) x {exact, empty, first byte, first half, all but last byte, all but first byte, last 4 bytes, +1 byte, +NUL, 1 byte+, doubled, first/middle/last byte changed, upper/lower/swapped case; thorough: every proper prefix length and every single-byte change} and for auth = null/true/0/[]/{}: status, restart, io.write, pair.list, config.set{control.auth_token} on one fresh endpoint with full state probes; only the exact string of a valid secret may be served. Role gate vs handler: for every permission-table arm whose role is computed from the params (taken from the source: config.set, role-deciding strings = the admin-only keys compared in required_role_for_config_set) x {canonical, other letter case, ASCII and Unicode blanks / tab / newline, NUL / BOM / zero-width / soft hyphen, Kelvin sign / dotless i / capital I with dot / long s / full-width letter / full-width dot, other separators, nested object instead of dotted key, wrapper members, array-shaped and string-shaped params, duplicate params / key members; thorough: mixed forms} x credential {pairing viewer, operator, engineer; admin token}: one raw request on a fresh endpoint with full state probes (settings probed per leaf); a calibration run (admin, canonical key) measures which probe fields each admin-only setting changes, and a request that changes one of these fields must come from a credential with the role the table demands for that setting, however the key was spelled. X1 additionally sends invisible-character / Unicode look-alike re-spellings of request names on the fully configured endpoint. Malformed: every byte truncation of three valid request lines, 45 garbage lines, 8 oversized/deeply nested lines on one long-lived connection.");
     rep.set("exhaustive", exhaustive);
     rep.set("tier_bounds", json!({"pairing_depth": max_depth, "garbled_bases": garble_bases.len(), "configurations": if thorough { 16 } else { 8 }}));
     rep.assume("with no auth token configured, credentials other than a valid pairing token are treated as local trusted access (the statement does not constrain them)");
